@@ -6,6 +6,8 @@ package c13
 
 import (
 	"fmt"
+	"iter"
+	"os"
 	"sort"
 	"strconv"
 	"strings"
@@ -32,7 +34,30 @@ const Rule = "cases = little programs over named automata drawn from VERIF_SEED:
 	"set; with an unordered set only languages, not structures, are compared); every case ends with read-only ops on hand-built and derived " +
 	"automata: States, Symbols (NFA and DFA), the exported Next (entries that exist, missing ones, eps, an entry with an " +
 	"empty target set) and a range over Transitions() broken off after k = 0, a few, or more transitions than there " +
-	"are, each checked against the entries the case added when the automaton is hand-built; distinct = distinct (header, op list)"
+	"are, each checked against the entries the case added when the automaton is hand-built; distinct = distinct (header, op list). " +
+	"HARDENING families (hard.go; header fam=…, non-trivial by construction). Axis 1, threshold sweeps at 63..65, 255..257, " +
+	"1023..1025 (quick: per dimension one size around 64 and one of the two larger bands, by the seed; thorough: all, plus 2, 3, " +
+	"4096, 65535..65537, 70000): number of states (a path DFA built to n-1, n, n+1 states and queried on each side with every " +
+	"operation; a cycle; an NFA whose eps-closure has n states: fan and path, the block size 128 of the closure stack), number " +
+	"of accepting states, alphabet size (symbols straddling 0x80, 0x800, 0x10000, 0x10FFFF, the surrogates, starting right after " +
+	"eps), Minimize with more than 64 / 256 / 1024 classes (a binary tree of pairwise inequivalent states, and one with twin " +
+	"halves to merge) and with as many refinement rounds as states (a path, also with every state accepting), 63..257 operands " +
+	"of Union/Concat/CombineDFA (drawn with repetition from a few objects), words of length 1000..1025, 4096, 65536 on small " +
+	"automata and everything derived from them (membership in a concatenation or star of hand-built automata is decided by a " +
+	"table over all sub-words, up to length 1300), one path DFA of 65535..70000 states. Above the size the executable Model can " +
+	"afford (1100 states; Minimize 300 states when it needs a round per state; in the quick tier the larger bands except three " +
+	"cases chosen by the seed) a case is ORACLE-ONLY (hx.Case.NoModel, counted as oracle_only_cases). Axis 2, as kinds of the " +
+	"random cases: the same object as receiver and argument or several times in one operand list for Union, Concat, Star of Star, " +
+	"CombineDFA, Equal, Isomorphic, then edited and all results read and made again; ONE automaton queried (every query kind), " +
+	"edited (a transition, an eps-move out of a state that other states reach by eps-moves, a new state, `addfinal` = Final.Add " +
+	"in place, Start/Final assigned) and queried again, several rounds, the earlier results read again at the end; Clone, then " +
+	"either side edited; Equal(x, x) and Isomorphic(x, x) must be true, Equal of two hand-built automata must say whether they " +
+	"were built alike. In EVERY case the harness writes to whatever the API handed it or it handed the API, right after the call: " +
+	"the slices returned by States/Symbols/Next, the Transition values and their Next slices, CombineDFA's final map, the " +
+	"final/next slices given to NewNFA/NewDFA/Add, the operand lists of Union/Concat/CombineDFA, the words given to Accept. " +
+	"Axis 3: state ids drawn from MaxInt, MinInt, +-2^31, 2^32, 2^62, the surrogate range, ids above 0x10FFFF, negative ids, " +
+	"ids equal in their low 8/16/32 bits (never -1); symbols on either side of every UTF-8/UTF-16 boundary, MaxInt32, MinInt32, -1 " +
+	"(never 0 = eps, which the package excludes from alphabets)"
 
 // ---------------------------------------------------------------- words and languages
 
@@ -40,11 +65,15 @@ type words struct {
 	sigma []int
 	k     int
 	all   [][]int
-	off   []int // off[n] = index of the first word of length n
+	off   []int       // off[n] = index of the first word of length n
+	dig   map[int]int // position of a symbol in sigma (the last one, should sigma repeat a symbol)
 }
 
 func mkWords(sigma []int, k int) *words {
-	w := &words{sigma: sigma, k: k}
+	w := &words{sigma: sigma, k: k, dig: map[int]int{}}
+	for q, a := range sigma {
+		w.dig[a] = q
+	}
 	pow := 1
 	for n := 0; n <= k; n++ {
 		w.off = append(w.off, len(w.all))
@@ -77,16 +106,13 @@ func (ws *words) union(ls ...lang) lang {
 
 // index of the sub-word all[i][from:to]
 func (ws *words) sub(i, from, to int) int {
+	if len(ws.sigma) == 1 {
+		return ws.off[to-from]
+	}
 	w := ws.all[i]
 	v := 0
 	for j := from; j < to; j++ {
-		d := 0
-		for q, a := range ws.sigma {
-			if a == w[j] {
-				d = q
-			}
-		}
-		v = v*len(ws.sigma) + d
+		v = v*len(ws.sigma) + ws.dig[w[j]]
 	}
 	return ws.off[to-from] + v
 }
@@ -126,14 +152,60 @@ func (ws *words) star(a lang) lang {
 
 // ---------------------------------------------------------------- independent structure + simulation
 
-type edge struct{ s, a, t int }
-
-// raw is the harness's own picture of a hand-built automaton (never read back from the code under test)
+// raw is the harness's own picture of a hand-built automaton (never read back from the code under test).
+// A raw that an expression of the oracle refers to (shared) is never written again: the register gets a copy first.
 type raw struct {
-	start int
-	final map[int]bool
-	edges map[edge]bool
-	keys  map[[2]int]bool // (s, a) pairs for which Add was called (an NFA entry can have an empty target set)
+	start  int
+	final  map[int]bool
+	keys   map[[2]int]bool         // (s, a) pairs for which Add was called (an NFA entry can have an empty target set)
+	out    map[[2]int]map[int]bool // (s, a) -> targets
+	shared bool
+	comp   *compiled // bit-set form of a shared (hence frozen) raw, made on demand
+}
+
+func newRaw(start int, fs []int) *raw {
+	r := &raw{start: start, final: map[int]bool{}, keys: map[[2]int]bool{}, out: map[[2]int]map[int]bool{}}
+	for _, x := range fs {
+		r.final[x] = true
+	}
+	return r
+}
+
+func (r *raw) clone() *raw {
+	c := newRaw(r.start, nil)
+	for f := range r.final {
+		c.final[f] = true
+	}
+	for k := range r.keys {
+		c.keys[k] = true
+	}
+	for k, ts := range r.out {
+		m := make(map[int]bool, len(ts))
+		for t := range ts {
+			m[t] = true
+		}
+		c.out[k] = m
+	}
+	return c
+}
+
+// addEdges: NFA.Add(s, a, ts)
+func (r *raw) addEdges(s, a int, ts []int) {
+	k := [2]int{s, a}
+	r.keys[k] = true
+	if r.out[k] == nil {
+		r.out[k] = map[int]bool{}
+	}
+	for _, t := range ts {
+		r.out[k][t] = true
+	}
+}
+
+// setEdge: DFA.Add(s, a, t) replaces the previous target
+func (r *raw) setEdge(s, a, t int) {
+	k := [2]int{s, a}
+	r.keys[k] = true
+	r.out[k] = map[int]bool{t: true}
 }
 
 // targets of the entry (s, a), ascending; ok = the entry exists
@@ -141,10 +213,8 @@ func (r *raw) entry(s, a int) (ts []int, ok bool) {
 	if !r.keys[[2]int{s, a}] {
 		return nil, false
 	}
-	for e := range r.edges {
-		if e.s == s && e.a == a {
-			ts = append(ts, e.t)
-		}
+	for t := range r.out[[2]int{s, a}] {
+		ts = append(ts, t)
 	}
 	sort.Ints(ts)
 	return ts, true
@@ -172,8 +242,10 @@ func (r *raw) states() []int {
 	for k := range r.keys {
 		seen[k[0]] = true
 	}
-	for e := range r.edges {
-		seen[e.t] = true
+	for _, ts := range r.out {
+		for t := range ts {
+			seen[t] = true
+		}
 	}
 	out := []int{}
 	for x := range seen {
@@ -207,30 +279,37 @@ func allDigits(x string) bool {
 	return true
 }
 
+// closure adds to S everything reachable from it on eps-edges (work list)
 func (r *raw) closure(S map[int]bool) map[int]bool {
-	for changed := true; changed; {
-		changed = false
-		for e := range r.edges {
-			if e.a == 0 && S[e.s] && !S[e.t] {
-				S[e.t] = true
-				changed = true
+	stack := make([]int, 0, len(S))
+	for s := range S {
+		stack = append(stack, s)
+	}
+	for len(stack) > 0 {
+		s := stack[len(stack)-1]
+		stack = stack[:len(stack)-1]
+		for t := range r.out[[2]int{s, 0}] {
+			if !S[t] {
+				S[t] = true
+				stack = append(stack, t)
 			}
 		}
 	}
 	return S
 }
 
-func (r *raw) accepts(w []int) bool {
-	S := r.closure(map[int]bool{r.start: true})
-	for _, a := range w {
-		T := map[int]bool{}
-		for e := range r.edges {
-			if e.a == a && S[e.s] {
-				T[e.t] = true
-			}
+// step: the states reachable from S by one a-edge followed by eps-edges
+func (r *raw) step(S map[int]bool, a int) map[int]bool {
+	T := map[int]bool{}
+	for s := range S {
+		for t := range r.out[[2]int{s, a}] {
+			T[t] = true
 		}
-		S = r.closure(T)
 	}
+	return r.closure(T)
+}
+
+func (r *raw) hasFinal(S map[int]bool) bool {
 	for s := range S {
 		if r.final[s] {
 			return true
@@ -239,12 +318,76 @@ func (r *raw) accepts(w []int) bool {
 	return false
 }
 
+func (r *raw) accepts(w []int) bool {
+	S := r.closure(map[int]bool{r.start: true})
+	for _, a := range w {
+		if len(S) == 0 {
+			return false
+		}
+		S = r.step(S, a)
+	}
+	return r.hasFinal(S)
+}
+
 func (r *raw) language(ws *words) lang {
 	l := make(lang, len(ws.all))
 	for i, w := range ws.all {
 		l[i] = r.accepts(w)
 	}
 	return l
+}
+
+// pullTwice: two pull iterators over the same automaton, alive at once, advanced alternately for three steps and then
+// abandoned (stop); they must yield the same transitions
+func pullTwice[T any](s1, s2 iter.Seq[T], same func(a, b T) bool) string {
+	n1, stop1 := iter.Pull(s1)
+	n2, stop2 := iter.Pull(s2)
+	defer stop1()
+	defer stop2()
+	for j := 0; j < 3; j++ {
+		a, ok1 := n1()
+		b, ok2 := n2()
+		if ok1 != ok2 {
+			return fmt.Sprintf("of two iterators over the same automaton one ended after %d transitions, the other did not", j)
+		}
+		if !ok1 {
+			break
+		}
+		if !same(a, b) {
+			return fmt.Sprintf("two iterators over the same automaton disagree on transition %d", j)
+		}
+	}
+	return ""
+}
+
+func sameRaw(a, b *raw) bool {
+	if a.start != b.start || len(a.final) != len(b.final) || len(a.keys) != len(b.keys) {
+		return false
+	}
+	for f := range a.final {
+		if !b.final[f] {
+			return false
+		}
+	}
+	for k := range a.keys {
+		if !b.keys[k] || len(a.out[k]) != len(b.out[k]) {
+			return false
+		}
+		for t := range a.out[k] {
+			if !b.out[k][t] {
+				return false
+			}
+		}
+	}
+	return true
+}
+
+// abbrev shows the beginning of a long word
+func abbrev(w []int) string {
+	if len(w) <= 12 {
+		return fmt.Sprint(w)
+	}
+	return fmt.Sprint(w[:12]) + "…"
 }
 
 // structure of a DFA as data (read through the public API of an *input* of the op under test)
@@ -282,13 +425,19 @@ func structOf(d *automata.DFA) *dstruct {
 }
 
 func (r *dstruct) reachable() map[int]bool {
+	succ := map[int][]int{}
+	for k, t := range r.next {
+		succ[k[0]] = append(succ[k[0]], t)
+	}
 	R := map[int]bool{r.start: true}
-	for changed := true; changed; {
-		changed = false
-		for k, t := range r.next {
-			if R[k[0]] && !R[t] {
+	work := []int{r.start}
+	for len(work) > 0 {
+		s := work[len(work)-1]
+		work = work[:len(work)-1]
+		for _, t := range succ[s] {
+			if !R[t] {
 				R[t] = true
-				changed = true
+				work = append(work, t)
 			}
 		}
 	}
@@ -296,16 +445,23 @@ func (r *dstruct) reachable() map[int]bool {
 }
 
 func (r *dstruct) live() map[int]bool {
+	pred := map[int][]int{}
+	for k, t := range r.next {
+		pred[t] = append(pred[t], k[0])
+	}
 	L := map[int]bool{}
+	var work []int
 	for f := range r.final {
 		L[f] = true
+		work = append(work, f)
 	}
-	for changed := true; changed; {
-		changed = false
-		for k, t := range r.next {
-			if L[t] && !L[k[0]] {
-				L[k[0]] = true
-				changed = true
+	for len(work) > 0 {
+		t := work[len(work)-1]
+		work = work[:len(work)-1]
+		for _, s := range pred[t] {
+			if !L[s] {
+				L[s] = true
+				work = append(work, s)
 			}
 		}
 	}
@@ -367,7 +523,10 @@ type reg struct {
 	n    *automata.NFA
 	d    *automata.DFA
 	raw  *raw // non-nil for hand-built automata
-	lang lang // oracle language (nil = unknown)
+	lang lang // oracle language on the words of the case (nil = unknown); stale while dirty
+	// dirty: raw was edited since lang was computed (languages of hand-built automata are computed on demand)
+	dirty bool
+	ex    *expr // oracle language of a derived automaton as an expression over hand-built ones (nil = unknown)
 	// renamedFrom/bijective: set by `rename`
 	renamedFrom string
 	nonIdentity bool
@@ -430,6 +589,21 @@ func finals(f automata.States) []automata.State {
 	return r
 }
 
+// The caller of the API owns what it is handed (slices returned by States/Symbols/Next, the Transition values and
+// their Next slices, CombineDFA's final map) and what it passes in (final/next slices, operand lists, words).
+// The harness writes to all of them as soon as it has read them: the automaton must not notice.
+func scribStates(xs []automata.State) {
+	for i := range xs {
+		xs[i] = automata.State(-424200 - i)
+	}
+}
+
+func scribSymbols(xs []automata.Symbol) {
+	for i := range xs {
+		xs[i] = automata.Symbol(4242 + i)
+	}
+}
+
 func dumpNFA(n *automata.NFA) string {
 	var ts []string
 	for tr := range n.Transitions() {
@@ -438,6 +612,8 @@ func dumpNFA(n *automata.NFA) string {
 			nx[i] = strconv.Itoa(int(t))
 		}
 		ts = append(ts, fmt.Sprintf("%d/%d/%s", tr.State, tr.Symbol, strings.Join(nx, ",")))
+		scribStates(tr.Next)
+		tr.State, tr.Symbol, tr.Next = -9, 9, append(tr.Next, 5)
 	}
 	return fmt.Sprintf("n %d %s [%s]", n.Start, showStates(finals(n.Final)), strings.Join(ts, " "))
 }
@@ -446,6 +622,7 @@ func dumpDFA(d *automata.DFA) string {
 	var ts []string
 	for tr := range d.Transitions() {
 		ts = append(ts, fmt.Sprintf("%d/%d/%d", tr.State, tr.Symbol, tr.Next))
+		tr.State, tr.Symbol, tr.Next = -9, 9, -9
 	}
 	return fmt.Sprintf("d %d %s [%s]", d.Start, showStates(finals(d.Final)), strings.Join(ts, " "))
 }
@@ -459,10 +636,15 @@ func toStr(w []int) automata.String {
 }
 
 func (r *reg) accept(w []int) bool {
+	s := toStr(w)
+	var got bool
 	if r.n != nil {
-		return r.n.Accept(toStr(w))
+		got = r.n.Accept(s)
+	} else {
+		got = r.d.Accept(s)
 	}
-	return r.d.Accept(toStr(w))
+	scribSymbols(s)
+	return got
 }
 
 // features of an operand that make a case non-trivial
@@ -516,8 +698,29 @@ func dfaFeatures(d *automata.DFA, tags map[string]bool) bool {
 
 // ---------------------------------------------------------------- Exec
 
+// VERIF_C13_TIMING=1: report operations that take more than 50 ms on stderr (a debugging aid)
+var slowOps = os.Getenv("VERIF_C13_TIMING") != ""
+var slowCase = func() time.Duration {
+	if os.Getenv("VERIF_C13_TIMING") == "all" {
+		return 0
+	}
+	return 150 * time.Millisecond
+}()
+
 // Exec runs one case on the real automata package, checking every step against the oracle.
 func Exec(c hx.Case) hx.Result {
+	if slowOps {
+		t0 := time.Now()
+		defer func() {
+			if d := time.Since(t0); d > slowCase {
+				h := c.Header
+				if i := strings.Index(h, "sig="); i >= 0 && len(h) > i+40 {
+					h = h[:i+40] + "…" + h[strings.LastIndex(h, "fam="):]
+				}
+				fmt.Fprintf(os.Stderr, "slow case (%v, nomodel=%v): %s\n", d.Round(time.Millisecond), c.NoModel, h)
+			}
+		}()
+	}
 	res := hx.Result{BadOp: -1}
 	sigma := []int{97, 98}
 	if s := hx.HeaderGet(c.Header, "sig"); s != "" {
@@ -538,6 +741,40 @@ func Exec(c hx.Case) hx.Result {
 	tags := map[string]bool{}
 	nontrivial := false
 	regs := map[string]*reg{}
+	// a Final field assigned a set that is not a sorted one: from then on `addfinal` is not an op of the case
+	// (the Model's Final is a list whose order mirrors a sorted set's)
+	unsortedFinal := false
+	// langOf: the oracle language of a register on the words of the case (hand-built automata: on demand)
+	langOf := func(r *reg) lang {
+		if r.raw != nil && r.dirty {
+			r.lang = r.raw.language(ws)
+			r.dirty = false
+		}
+		return r.lang
+	}
+	// exOf: the oracle language as an expression; a hand-built automaton becomes a leaf and its raw is frozen
+	exOf := func(r *reg) *expr {
+		if r.raw != nil {
+			r.raw.shared = true
+			return &expr{kind: 'l', leaf: r.raw}
+		}
+		return r.ex
+	}
+	// own: called before the raw of a register is written
+	own := func(r *reg) {
+		if r.raw != nil && r.raw.shared {
+			r.raw = r.raw.clone()
+		}
+	}
+	// edited: a register was written through the API
+	edited := func(r *reg) {
+		if r.raw != nil {
+			r.dirty = true
+		} else {
+			r.lang = nil
+		}
+		r.ex = nil
+	}
 
 	bad := func(i int, sig string, format string, a ...any) {
 		if res.BadOp < 0 {
@@ -548,7 +785,7 @@ func Exec(c hx.Case) hx.Result {
 	}
 	// checkLang compares the real result on every word with the oracle language
 	checkLang := func(i int, op string, r *reg, sig string) {
-		if r.lang == nil {
+		if langOf(r) == nil {
 			return
 		}
 		for j, w := range ws.all {
@@ -575,6 +812,7 @@ func Exec(c hx.Case) hx.Result {
 		f := strings.Fields(op)
 		out := "bad-op"
 		var kind string
+		t0op := time.Now()
 		finished := hx.WithTimeout(20*time.Second, func() {
 			kind = hx.Try(func() {
 				if len(f) == 0 {
@@ -590,17 +828,14 @@ func Exec(c hx.Case) hx.Result {
 					if err != nil || !ok {
 						return
 					}
-					rw := &raw{start: s, final: map[int]bool{}, edges: map[edge]bool{}, keys: map[[2]int]bool{}}
-					for _, x := range fs {
-						rw.final[x] = true
-					}
-					r := &reg{raw: rw}
+					r := &reg{raw: newRaw(s, fs), dirty: true}
+					fsl := states(fs)
 					if f[0] == "nfa" {
-						r.n = automata.NewNFA(automata.State(s), states(fs))
+						r.n = automata.NewNFA(automata.State(s), fsl)
 					} else {
-						r.d = automata.NewDFA(automata.State(s), states(fs))
+						r.d = automata.NewDFA(automata.State(s), fsl)
 					}
-					r.lang = rw.language(ws)
+					scribStates(fsl)
 					regs[f[1]] = r
 					out = "ok"
 				case "add":
@@ -614,16 +849,14 @@ func Exec(c hx.Case) hx.Result {
 					if r == nil || e1 != nil || e2 != nil || !ok {
 						return
 					}
-					r.n.Add(automata.State(s), automata.Symbol(a), states(ts))
+					tsl := states(ts)
+					r.n.Add(automata.State(s), automata.Symbol(a), tsl)
+					scribStates(tsl)
+					own(r)
 					if r.raw != nil {
-						r.raw.keys[[2]int{s, a}] = true
-						for _, t := range ts {
-							r.raw.edges[edge{s, a, t}] = true
-						}
-						r.lang = r.raw.language(ws)
-					} else {
-						r.lang = nil
+						r.raw.addEdges(s, a, ts)
 					}
+					edited(r)
 					out = "ok"
 				case "dadd":
 					if len(f) != 5 {
@@ -637,18 +870,11 @@ func Exec(c hx.Case) hx.Result {
 						return
 					}
 					r.d.Add(automata.State(s), automata.Symbol(a), automata.State(t))
+					own(r)
 					if r.raw != nil {
-						for e := range r.raw.edges { // Put replaces the previous target
-							if e.s == s && e.a == a {
-								delete(r.raw.edges, e)
-							}
-						}
-						r.raw.edges[edge{s, a, t}] = true
-						r.raw.keys[[2]int{s, a}] = true
-						r.lang = r.raw.language(ws)
-					} else {
-						r.lang = nil
+						r.raw.setEdge(s, a, t) // Put replaces the previous target
 					}
+					edited(r)
 					out = "ok"
 				case "setstart":
 					// direct assignment of the exported Start field
@@ -665,12 +891,11 @@ func Exec(c hx.Case) hx.Result {
 					} else {
 						r.d.Start = automata.State(v)
 					}
+					own(r)
 					if r.raw != nil {
 						r.raw.start = v
-						r.lang = r.raw.language(ws)
-					} else {
-						r.lang = nil
 					}
+					edited(r)
 					tags["direct-start"] = true
 					nontrivial = true
 					out = "ok"
@@ -700,17 +925,41 @@ func Exec(c hx.Case) hx.Result {
 					} else {
 						r.d.Final = st
 					}
+					own(r)
 					if r.raw != nil {
 						r.raw.final = map[int]bool{}
 						for _, x := range fs {
 							r.raw.final[x] = true
 						}
-						r.lang = r.raw.language(ws)
-					} else {
-						r.lang = nil
+					}
+					edited(r)
+					if f[2] != "sorted" {
+						unsortedFinal = true
 					}
 					tags["direct-final-"+f[2]] = true
 					nontrivial = true
+					out = "ok"
+				case "addfinal":
+					// X.Final.Add(s): the exported Final set edited in place (only while every Final of the case is a sorted set)
+					if len(f) != 3 || regs[f[1]] == nil || unsortedFinal {
+						return
+					}
+					v, err := strconv.Atoi(f[2])
+					if err != nil {
+						return
+					}
+					r := regs[f[1]]
+					if r.n != nil {
+						r.n.Final.Add(automata.State(v))
+					} else {
+						r.d.Final.Add(automata.State(v))
+					}
+					own(r)
+					if r.raw != nil {
+						r.raw.final[v] = true
+					}
+					edited(r)
+					tags["final-add-in-place"] = true
 					out = "ok"
 				case "dump":
 					if len(f) != 2 || regs[f[1]] == nil {
@@ -738,6 +987,7 @@ func Exec(c hx.Case) hx.Result {
 							bad(i, "", "states %s = %v, the automaton was built with the states %v", f[1], got, want)
 						}
 					}
+					scribStates(got)
 					tags["op=states"] = true
 				case "symbols":
 					if len(f) != 2 || regs[f[1]] == nil {
@@ -759,6 +1009,7 @@ func Exec(c hx.Case) hx.Result {
 							bad(i, "", "symbols %s = %v, the table of the automaton has the symbols %v", f[1], got, want)
 						}
 					}
+					scribSymbols(got)
 				case "next":
 					// next X s a: the exported Next (NFA: nil or the target list; DFA: the target or -1)
 					if len(f) != 4 || regs[f[1]] == nil {
@@ -789,6 +1040,7 @@ func Exec(c hx.Case) hx.Result {
 								bad(i, "", "next %s %d %d = %v (nil=%v), the automaton was built with the targets %v (entry=%v)", f[1], sv, av, got, got == nil, want, ok)
 							}
 						}
+						scribStates(got)
 					} else {
 						got := r.d.Next(automata.State(sv), automata.Symbol(av))
 						out = "ok " + strconv.Itoa(int(got))
@@ -821,11 +1073,27 @@ func Exec(c hx.Case) hx.Result {
 						nx   []int
 					}
 					var items []item
+					// the iterator value is obtained once and run twice (the loop below, and once more to the end); while the
+					// loop is in its first round a second, complete loop over the same automaton runs inside it; before that, two
+					// pull iterators over the same automaton are advanced alternately and abandoned after three steps
+					inner, again := -1, 0
 					if r.n != nil {
-						for tr := range r.n.Transitions() {
+						if msg := pullTwice(r.n.Transitions(), r.n.Transitions(), func(a, b *automata.Transition[[]automata.State]) bool {
+							return a.State == b.State && a.Symbol == b.Symbol && sameInts(ints(a.Next), ints(b.Next))
+						}); msg != "" {
+							bad(i, "", "trans %s: %s", f[1], msg)
+						}
+						seq := r.n.Transitions()
+						for tr := range seq {
 							if cnt == k {
 								broke = true
 								break
+							}
+							if cnt == 0 {
+								inner = 0
+								for range r.n.Transitions() {
+									inner++
+								}
 							}
 							nx := make([]string, len(tr.Next))
 							for q, t := range tr.Next {
@@ -833,20 +1101,50 @@ func Exec(c hx.Case) hx.Result {
 							}
 							ts = append(ts, fmt.Sprintf("%d/%d/%s", tr.State, tr.Symbol, strings.Join(nx, ",")))
 							items = append(items, item{int(tr.State), int(tr.Symbol), ints(tr.Next)})
+							scribStates(tr.Next)
+							tr.State, tr.Symbol = -9, 9
 							cnt++
 						}
+						for range seq {
+							again++
+						}
 					} else {
-						for tr := range r.d.Transitions() {
+						if msg := pullTwice(r.d.Transitions(), r.d.Transitions(), func(a, b *automata.Transition[automata.State]) bool {
+							return *a == *b
+						}); msg != "" {
+							bad(i, "", "trans %s: %s", f[1], msg)
+						}
+						seq := r.d.Transitions()
+						for range seq {
+							again++
+						}
+						for tr := range seq {
 							if cnt == k {
 								broke = true
 								break
 							}
+							if cnt == 0 {
+								inner = 0
+								for range r.d.Transitions() {
+									inner++
+								}
+							}
 							ts = append(ts, fmt.Sprintf("%d/%d/%d", tr.State, tr.Symbol, tr.Next))
 							items = append(items, item{int(tr.State), int(tr.Symbol), []int{int(tr.Next)}})
+							tr.State, tr.Symbol, tr.Next = -9, 9, -9
 							cnt++
 						}
 					}
 					out = "ok [" + strings.Join(ts, " ") + "]"
+					if inner >= 0 && inner != again {
+						bad(i, "", "trans %s: a loop over Transitions() nested in another one saw %d transitions, the iterator run a second time %d", f[1], inner, again)
+					}
+					if !broke && cnt != again {
+						bad(i, "", "trans %s: the same iterator value yielded %d transitions in one run and %d in the other", f[1], cnt, again)
+					}
+					if r.raw != nil && again != len(r.raw.keys) {
+						bad(i, "", "trans %s: the iterator yielded %d transitions, the table has %d entries", f[1], again, len(r.raw.keys))
+					}
 					if broke {
 						tags["trans-early-exit"] = true
 					} else {
@@ -873,6 +1171,7 @@ func Exec(c hx.Case) hx.Result {
 					}
 					r := regs[f[1]]
 					var b strings.Builder
+					lg := langOf(r)
 					for j, w := range ws.all {
 						got := r.accept(w)
 						if got {
@@ -880,8 +1179,8 @@ func Exec(c hx.Case) hx.Result {
 						} else {
 							b.WriteByte('0')
 						}
-						if r.lang != nil && got != r.lang[j] {
-							bad(i, "", "acc %s: accepts %v = %v, the oracle language says %v", f[1], w, got, r.lang[j])
+						if lg != nil && got != lg[j] {
+							bad(i, "", "acc %s: accepts %v = %v, the oracle language says %v", f[1], w, got, lg[j])
 						}
 					}
 					out = "ok " + b.String()
@@ -896,15 +1195,18 @@ func Exec(c hx.Case) hx.Result {
 					r := regs[f[1]]
 					got := r.accept(w)
 					out = "ok " + strconv.FormatBool(got)
-					if r.raw != nil {
-						hasE := false
-						for _, a := range w {
-							if a == 0 {
-								hasE = true
-							}
+					hasE := false
+					for _, a := range w {
+						if a == 0 {
+							hasE = true
 						}
-						if want := r.raw.accepts(w); !hasE && got != want {
-							bad(i, "", "accw %s %v = %v, direct simulation says %v", f[1], w, got, want)
+					}
+					if e := exOf(r); e != nil && !hasE {
+						if want, known := e.member(w); known && got != want {
+							bad(i, "", "accw %s (a word of length %d, %s) = %v, the oracle language says %v", f[1], len(w), abbrev(w), got, want)
+						}
+						if len(w) >= 1000 {
+							tags["word>=1000"] = true
 						}
 					}
 				case "todfa":
@@ -913,7 +1215,7 @@ func Exec(c hx.Case) hx.Result {
 					}
 					src := getN(f[2])
 					nontrivial = nfaFeatures(src.n, tags) || nontrivial
-					r := &reg{d: src.n.ToDFA(), lang: src.lang}
+					r := &reg{d: src.n.ToDFA(), lang: langOf(src), ex: exOf(src)}
 					regs[f[1]] = r
 					out = "ok " + dumpDFA(r.d)
 					checkLang(i, "ToDFA", r, "")
@@ -924,7 +1226,7 @@ func Exec(c hx.Case) hx.Result {
 					}
 					src := getD(f[2])
 					nontrivial = dfaFeatures(src.d, tags) || nontrivial
-					r := &reg{n: src.d.ToNFA(), lang: src.lang}
+					r := &reg{n: src.d.ToNFA(), lang: langOf(src), ex: exOf(src)}
 					regs[f[1]] = r
 					out = "ok " + dumpNFA(r.n)
 					checkLang(i, "ToNFA", r, "")
@@ -936,8 +1238,11 @@ func Exec(c hx.Case) hx.Result {
 					src := getN(f[2])
 					nontrivial = nfaFeatures(src.n, tags) || nontrivial
 					r := &reg{n: src.n.Star()}
-					if src.lang != nil {
-						r.lang = ws.star(src.lang)
+					if l := langOf(src); l != nil {
+						r.lang = ws.star(l)
+					}
+					if e := exOf(src); e != nil {
+						r.ex = &expr{kind: 's', kids: []*expr{e}}
 					}
 					regs[f[1]] = r
 					out = "ok " + dumpNFA(r.n)
@@ -949,7 +1254,8 @@ func Exec(c hx.Case) hx.Result {
 					}
 					var ns []*automata.NFA
 					var ls []lang
-					known := true
+					var es []*expr
+					known, eknown := true, true
 					risky := false
 					for q, x := range f[2:] {
 						r := getN(x)
@@ -957,9 +1263,19 @@ func Exec(c hx.Case) hx.Result {
 							return
 						}
 						ns = append(ns, r.n)
-						ls = append(ls, r.lang)
-						if r.lang == nil {
+						ls = append(ls, langOf(r))
+						if langOf(r) == nil {
 							known = false
+						}
+						es = append(es, exOf(r))
+						if exOf(r) == nil {
+							eknown = false
+						}
+						for _, y := range f[2 : 2+q] {
+							if y == x {
+								tags["same-object-twice:"+f[0]] = true
+								nontrivial = true
+							}
 						}
 						t := map[string]bool{}
 						nfaFeatures(r.n, t)
@@ -969,17 +1285,29 @@ func Exec(c hx.Case) hx.Result {
 						nontrivial = nfaFeatures(r.n, tags) || nontrivial
 					}
 					r := &reg{}
+					if len(ns) > 64 {
+						tags["operands>64:"+f[0]] = true
+					}
+					rest := append([]*automata.NFA{}, ns[1:]...) // the variadic slice is the caller's: cleared after the call
 					if f[0] == "union" {
-						r.n = ns[0].Union(ns[1:]...)
+						r.n = ns[0].Union(rest...)
+						clear(rest)
 						if known {
 							r.lang = ws.union(ls...)
+						}
+						if eknown {
+							r.ex = &expr{kind: 'u', kids: es}
 						}
 						regs[f[1]] = r
 						out = "ok " + dumpNFA(r.n)
 						checkLang(i, "Union", r, "")
 						tags["op=union"] = true
 					} else {
-						r.n = ns[0].Concat(ns[1:]...)
+						r.n = ns[0].Concat(rest...)
+						clear(rest)
+						if eknown {
+							r.ex = &expr{kind: 'c', kids: es}
+						}
 						if known {
 							l := ls[0]
 							for _, m := range ls[1:] {
@@ -1002,7 +1330,7 @@ func Exec(c hx.Case) hx.Result {
 					}
 					src := getD(f[2])
 					nontrivial = dfaFeatures(src.d, tags) || nontrivial
-					r := &reg{lang: src.lang}
+					r := &reg{lang: langOf(src), ex: exOf(src)}
 					switch f[0] {
 					case "min":
 						st := structOf(src.d)
@@ -1020,7 +1348,16 @@ func Exec(c hx.Case) hx.Result {
 							nontrivial = true
 						}
 						if clean {
-							if want := st.minimalCount(); got != want {
+							want := 0
+							if len(st.states) <= 24 {
+								want = st.minimalCount()
+							} else {
+								want = st.minimalCountMoore()
+							}
+							if want > 64 {
+								tags["minimize-classes>64"] = true
+							}
+							if got != want {
 								bad(i, "", "Minimize of a DFA without unreachable/dead states has %d states, the table-filling minimum is %d", got, want)
 							}
 							tags["minimize-checked-minimal"] = true
@@ -1039,7 +1376,7 @@ func Exec(c hx.Case) hx.Result {
 						return
 					}
 					src := regs[f[2]]
-					r := &reg{lang: src.lang}
+					r := &reg{lang: langOf(src), ex: exOf(src)}
 					if src.n != nil {
 						r.n = src.n.Clone()
 						out = "ok " + dumpNFA(r.n)
@@ -1119,7 +1456,8 @@ func Exec(c hx.Case) hx.Result {
 						}
 					}
 					if inj {
-						r.lang = src.lang
+						r.lang = langOf(src)
+						r.ex = exOf(src)
 					} else {
 						r.renamedFrom = ""
 					}
@@ -1131,23 +1469,44 @@ func Exec(c hx.Case) hx.Result {
 					}
 					var ds []*automata.DFA
 					var ls []lang
-					known := true
-					for _, x := range f[2:] {
+					var es []*expr
+					known, eknown := true, true
+					for q, x := range f[2:] {
 						r := getD(x)
 						if r == nil {
 							return
 						}
 						ds = append(ds, r.d)
-						ls = append(ls, r.lang)
-						if r.lang == nil {
+						ls = append(ls, langOf(r))
+						if langOf(r) == nil {
 							known = false
 						}
-						nontrivial = dfaFeatures(r.d, tags) || nontrivial
+						es = append(es, exOf(r))
+						if exOf(r) == nil {
+							eknown = false
+						}
+						for _, y := range f[2 : 2+q] {
+							if y == x {
+								tags["same-object-twice:combine"] = true
+								nontrivial = true
+							}
+						}
+						if len(f) <= 2+8 || q < 4 { // the features of the first operands tell enough about a long list
+							nontrivial = dfaFeatures(r.d, tags) || nontrivial
+						}
 					}
+					if len(ds) > 64 {
+						tags["operands>64:combine"] = true
+					}
+					nds := len(ds)
 					d, fm := automata.CombineDFA(ds...)
+					clear(ds) // the variadic slice is the caller's
 					r := &reg{d: d}
 					if known {
 						r.lang = ws.union(ls...)
+					}
+					if eknown && len(es) > 0 {
+						r.ex = &expr{kind: 'u', kids: es}
 					}
 					regs[f[1]] = r
 					parts := make([]string, len(fm))
@@ -1163,7 +1522,7 @@ func Exec(c hx.Case) hx.Result {
 							for _, a := range w {
 								cur = d.Next(cur, automata.Symbol(a))
 							}
-							for q := range ds {
+							for q := 0; q < nds; q++ {
 								in := false
 								if q < len(fm) {
 									for _, s := range fm[q] {
@@ -1177,6 +1536,9 @@ func Exec(c hx.Case) hx.Result {
 								}
 							}
 						}
+					}
+					for _, m := range fm { // the final map is the caller's
+						scribStates(m)
 					}
 					tags["op=combine"] = true
 				case "iso", "equal":
@@ -1201,9 +1563,16 @@ func Exec(c hx.Case) hx.Result {
 							tags["iso-nonidentity-renaming"] = true
 							nontrivial = true
 						}
-						if got && a.lang != nil && b.lang != nil {
+						if f[1] == f[2] {
+							tags["same-object-twice:iso"] = true
+							nontrivial = true
+							if !got {
+								bad(i, "iso:renamed-copy-rejected", "%s.Isomorphic(%s) = false: the identity is a renaming", f[1], f[2])
+							}
+						}
+						if la, lb := langOf(a), langOf(b); got && la != nil && lb != nil {
 							for j := range ws.all {
-								if a.lang[j] != b.lang[j] {
+								if la[j] != lb[j] {
 									bad(i, "", "Isomorphic(%s, %s) = true but the languages differ on %v", f[1], f[2], ws.all[j])
 									break
 								}
@@ -1216,11 +1585,26 @@ func Exec(c hx.Case) hx.Result {
 						} else {
 							got = a.d.Equal(b.d)
 						}
+						if f[1] == f[2] {
+							tags["same-object-twice:equal"] = true
+							nontrivial = true
+							if !got {
+								bad(i, "", "%s.Equal(%s) = false for one and the same automaton", f[1], f[2])
+							}
+						} else if a.raw != nil && b.raw != nil {
+							// two hand-built automata are Equal iff they were built with the same start, finals and entries
+							if want := sameRaw(a.raw, b.raw); got != want {
+								bad(i, "", "%s.Equal(%s) = %v, the two automata were built with the same start state, final states and entries = %v", f[1], f[2], got, want)
+							}
+						}
 					}
 					out = "ok " + strconv.FormatBool(got)
 				}
 			})
 		})
+		if slowOps && time.Since(t0op) > 50*time.Millisecond {
+			fmt.Fprintf(os.Stderr, "slow op %d (%v): %.60s\n", i, time.Since(t0op).Round(time.Millisecond), op)
+		}
 		if !finished {
 			res.Outs = append(res.Outs, "hang")
 			bad(i, "", "%s did not return", op)
@@ -1246,6 +1630,11 @@ func Exec(c hx.Case) hx.Result {
 		tags["aliasing-case"] = true
 		nontrivial = true
 	}
+	if fam := hx.HeaderGet(c.Header, "fam"); fam != "" {
+		// a threshold-sweep or API-usage family (hard.go): non-trivial by construction
+		tags["family="+fam] = true
+		nontrivial = true
+	}
 	res.Nontrivial = nontrivial
 	for t := range tags {
 		res.Tags = append(res.Tags, t)
@@ -1269,7 +1658,33 @@ func joinInts(xs []int) string {
 
 // ids draws n distinct state ids from a non-contiguous range
 func ids(r *hx.Rand, n int) []int {
-	switch r.Intn(7) {
+	switch r.Intn(10) {
+	case 7, 8: // Axis 3: MaxInt/MinInt, outside the rune range, surrogates, equal after truncation to 8/16/32 bits
+		seen := map[int]bool{}
+		var xs []int
+		for len(xs) < n {
+			v := hx.Pick(r, wildIDs)
+			if !seen[v] {
+				seen[v] = true
+				xs = append(xs, v)
+			}
+		}
+		return xs
+	case 9: // ids that differ in the bits above the low 8, 16 or 32 only
+		sh := []uint{8, 16, 32}[r.Intn(3)]
+		base := r.Intn(7)
+		xs := make([]int, n)
+		for i := range xs {
+			xs[i] = base + (i+r.Intn(2)*8)<<sh
+		}
+		for i := range xs { // distinct by construction only if the random offsets do not collide
+			for j := 0; j < i; j++ {
+				if xs[i] == xs[j] {
+					xs[i] = base + (i+16+j)<<sh
+				}
+			}
+		}
+		return xs
 	case 6: // negative ids as well (never -1, the "invalid state")
 		seen := map[int]bool{}
 		var xs []int
@@ -1365,6 +1780,31 @@ func genDFA(r *hx.Rand, x string, maxStates int, sigma []int) []string {
 	if shape == 2 { // no transition at all, the start state accepting or not
 		if r.Chance(3, 4) {
 			ops[0] = fmt.Sprintf("dfa %s %d %d", x, st[0], st[0])
+		}
+		return ops
+	}
+	if shape == 3 && n > 1 {
+		// one cycle through all the states; the only accepting state hangs off one of them (every state of the cycle is
+		// live, but only by going round)
+		f := st[0] + 1
+		for again := true; again; {
+			again = f == -1
+			for _, s := range st {
+				if s == f {
+					again = true
+				}
+			}
+			if again {
+				f++
+			}
+		}
+		ops = []string{fmt.Sprintf("dfa %s %d %d", x, st[0], f)}
+		for i, s := range st {
+			ops = append(ops, fmt.Sprintf("dadd %s %d %d %d", x, s, sigma[0], st[(i+1)%n]))
+		}
+		ops = append(ops, fmt.Sprintf("dadd %s %d %d %d", x, hx.Pick(r, st), sigma[len(sigma)-1], f))
+		if r.Chance(1, 2) {
+			ops = append(ops, fmt.Sprintf("dadd %s %d %d %d", x, f, hx.Pick(r, sigma), hx.Pick(r, st)))
 		}
 		return ops
 	}
@@ -1520,12 +1960,25 @@ func genCase(r *hx.Rand) hx.Case {
 		maxN = 5
 	}
 	// the alphabet: contiguous or with gaps (the words of `acc` are over exactly these symbols)
-	sigma := [][]int{{97, 98}, {97, 99}, {98, 120}, {1, 98}, {97, 98, 99}, {97, 100, 120}}[r.Intn(6)]
+	sigma := sigmaSchemes[r.Intn(6)]
+	if r.Chance(1, 3) {
+		sigma = hx.Pick(r, sigmaSchemes) // symbols on either side of an encoding boundary, the extremes of a rune
+	}
 	kw := 5
 	if len(sigma) > 2 {
 		kw = 4 // 121 words
 	}
-	kind := r.Intn(9)
+	kind := r.Intn(14)
+	switch kind {
+	case 9:
+		return famSame(r)
+	case 10, 11:
+		return famQEQ(r, true)
+	case 12:
+		return famQEQ(r, false)
+	case 13:
+		return famClone(r)
+	}
 	switch kind {
 	case 0, 1: // NFA pipeline
 		a := genNFA(r, "A", maxN, sigma)
@@ -1618,6 +2071,10 @@ func genCase(r *hx.Rand) hx.Case {
 		ops = append(ops, "acc A", "acc B", "star S A", "acc S", "union U A A", "acc U", "concat C A A", "acc C", "todfa D A", "acc D", "clone K A", "acc K", "equal K A",
 			"min M B", "acc M", "elim L B", "acc L", "reidx R B", "acc R", "tonfa N B", "acc N", "clone KB B", "acc KB", "combine X B B", "acc X",
 			"rename Q A "+renaming(r, sa), "iso A Q", "rename QB B "+renaming(r, sb), "iso B QB", "min MD D", "acc MD")
+		// two automata that differ in the KIND of their Final set only: a clone whose Final is assigned the same members as a sorted set
+		fa, fb := pickSome(sa), pickSome(sb)
+		ops = append(ops, fmt.Sprintf("setfinal A %s %s", kindF, joinInts(fa)), "clone KS A", fmt.Sprintf("setfinal KS sorted %s", joinInts(fa)), "equal KS A", "equal A KS", "iso A KS", "acc KS",
+			fmt.Sprintf("setfinal B %s %s", kindF, joinInts(fb)), "clone KT B", fmt.Sprintf("setfinal KT sorted %s", joinInts(fb)), "equal KT B", "equal B KT", "iso KT B", "acc KT", "union UK A KS", "acc UK", "combine XK B KT", "acc XK")
 		// read-only ops on the hand-built automata only: a derived structure depends on the iteration order of an unordered Final
 		ops = append(ops, probe(r, "A", sa, sigma, true)...)
 		ops = append(ops, probe(r, "B", sb, sigma, true)...)
@@ -1689,8 +2146,12 @@ func Main(run *hx.Run) {
 			run.Do(hx.HeaderGet(c.Header, "comp"), c, Exec)
 		}
 	}
+	if oneFamily(run) {
+		return
+	}
+	hardFamilies(run)
 	r := run.R.Fork("automata")
-	n := run.Scale(1200)
+	n := run.Scale(700)
 	for i := 0; i < n; i++ {
 		run.Do("automata", genCase(r), Exec)
 	}
